@@ -881,7 +881,7 @@ func (fv *FV) mapUpdate(st *State, x *ssa.MapUpdate) {
 	st.escapeTerm(k)
 	st.escapeTerm(v)
 	fv.mapFrameCheck(st, m, x.Pos())
-	fv.guardCheck(st, x.Map, x.Pos())
+	fv.guardCheck(st, x.Map, x.Pos(), true)
 	dn, vn := mapDomHeap(ks, vs), mapValHeap(ks, vs)
 	dh := fv.heapGet(st.heap, st.epoch, dn, arraySort(SInt, arraySort(ks, SBool)))
 	vh := fv.heapGet(st.heap, st.epoch, vn, arraySort(SInt, arraySort(ks, vs)))
@@ -898,7 +898,7 @@ func (fv *FV) lookup(st *State, x *ssa.Lookup) {
 		return
 	}
 	ks, vs, mt := fv.mapSorts(x.X.Type())
-	fv.guardCheck(st, x.X, x.Pos())
+	fv.guardCheck(st, x.X, x.Pos(), false)
 	dh := fv.heapGet(st.heap, st.epoch, mapDomHeap(ks, vs), arraySort(SInt, arraySort(ks, SBool)))
 	vh := fv.heapGet(st.heap, st.epoch, mapValHeap(ks, vs), arraySort(SInt, arraySort(ks, vs)))
 	present := tAnd(tNot(tEq(base, mkInt(0))), tSelect(tSelect(dh, base, arraySort(ks, SBool)), idx, SBool))
@@ -927,7 +927,7 @@ func (fv *FV) rangeInit(st *State, x *ssa.Range) {
 		return
 	}
 	m := fv.vterm(st, x.X)
-	fv.guardCheck(st, x.X, x.Pos())
+	fv.guardCheck(st, x.X, x.Pos(), false)
 	ks, _, _ := fv.mapSorts(x.X.Type())
 	id := CellID{Frame: st.frame.ID, A: x}
 	st.cells[id] = tv(Term{S: fmt.Sprintf("((as const (Array %s Bool)) false)", ks), Sort: arraySort(ks, SBool)})
